@@ -273,6 +273,21 @@ impl World {
             r is Err && final(self).faults@ == old(self).faults@ ==> final(self).fs() == old(self).fs(),
     { unimplemented!() }
 
+    // ---- symlink(2) with a RELATIVE one-component target (the only use in /repo: bin/detect -> "build"): the link must not exist, its
+    // parent must be a directory; the new link resolves to the sibling it names (Some(physical sibling) when that is a non-link node)
+    #[verifier::external_body]
+    pub fn fs_symlink<P: AsRef<Path>, Q: AsRef<Path>>(&mut self, original: P, link: Q) -> (r: Result<(), IoError>)
+        requires old(self).fs().wf(), original.path_view().len() == 1, is_component(original.path_view()[0])
+        ensures final(self).proc@ == old(self).proc@, final(self).fs().wf(), final(self).faults@ >= old(self).faults@,
+            r is Ok ==> final(self).faults@ == old(self).faults@ && link.path_view().len() > 0 && !old(self).fs().has(link.path_view())
+                && old(self).fs().is_dir(link.path_view().drop_last())
+                && final(self).fs().has(link.path_view())
+                && final(self).fs().node(link.path_view()) == Node::Link({ let sib = link.path_view().drop_last().push(original.path_view()[0]);
+                        if old(self).fs().has(sib) && !(old(self).fs().node(sib) is Link) { Some(sib) } else if old(self).fs().has(sib) { old(self).fs().node(sib)->Link_0 } else { None } })
+                && final(self).fs().same_except(old(self).fs(), link.path_view()),
+            r is Err ==> final(self).fs() == old(self).fs(),
+    { unimplemented!() }
+
     // ---- open(O_CREAT|O_TRUNC|O_WRONLY)+write_all: parent must be a directory, target must not be one.
     // (an existing symlink target would be written through; excluded by the physical-path assumption for files libcnb writes)
     #[verifier::external_body]
